@@ -70,7 +70,7 @@ contract(TR + "query_ast_visitor.visit_BinOp", props=["C13", "C09", "C02"],
              ("python_result_kind@C13", "implies(known_binop(node), kind_of(rep_of(node)) == py_bin_kind(node, kind_of(final_left), kind_of(final_right)))"),
              ("cxx_static_type_is_declared_kind@C13", "implies(known_binop(node), cxx_agrees(node, kind_of(final_left), kind_of(final_right), kind_of(rep_of(node))))"),
              ("operator_well_formed@C02", "implies(known_binop(node), cxx_bin_kind(node, kind_of(final_left), kind_of(final_right)) != 'ill-formed')"),
-             ("operands_arithmetic@C13", "implies(known_binop(node), arith(kind_of(final_left)) and arith(kind_of(final_right)))"),
+             ("operands_arithmetic@C13,C09", "implies(known_binop(node), arith(kind_of(final_left)) and arith(kind_of(final_right)))"),
          ])
 
 UNOP_NODE = RefOf("ast.UnaryOp")
